@@ -13,24 +13,38 @@ ASSUMPTIONS = [
     "'not on the best chain') by reading getEndorsedBy()/getBestChain() itself",
 ]
 META = {
-    "text": "Coq theorems over a hand-written model of DefaultPopRewardsCalculator with explicit 256-bit wrap, "
-            "uint64 payout accumulation, throw/abort outcomes (all inputs, unbounded endorsement lists): under stated "
-            "parameter/size bounds the 256-bit arithmetic never wraps (u256_refines_Z) and the calculator equals an "
-            "independently written by-regime specification (reward_eq_spec: flat round, below/above slope start, "
-            "threshold cap, keystone round, minimum difficulty, score from relative VBK publication height, averaged "
-            "difficulty, per-payout-info sums); no endorsement on the best VBK chain -> nothing paid; endorsements "
-            "off the best chain are ignored (for every wrap function and parameter set); total paid <= block reward "
-            "<= capped block reward (integer-division rounding only loses); amounts of equal payout infos are summed "
-            "independently of the endorsement order. The model is executable and compared with the real calculator "
-            "(pure helpers on random parameter sets incl. the wrap regime, and getPopPayout/calculatePayouts on real "
-            "ALT/VBK trees built with MockMiner incl. VBK forks and duplicate payout infos); where the side conditions "
-            "hold the extracted specification is evaluated as well, so a disagreement is a concrete failing input.",
+    "text": "Coq theorems (all inputs, unbounded endorsement lists and chains) over a hand-written model of "
+            "DefaultPopRewardsCalculator + PopRewardsBigDecimal with explicit 256-bit wrap, uint64 payout accumulation "
+            "and throw/abort/SIGFPE outcomes. Under decidable, stated bounds (params_okb: converted doubles < 2^64, "
+            "thresholds >= slope start, a ratio for every round, capped reward < 2^64; heights < 2^31; < 2^32 "
+            "endorsements per block): C14_u256_refines_Z (+_block_reward): the 256-bit arithmetic never wraps; "
+            "C14_block_reward_eq_spec / C14_reward_eq_spec: calculateBlockReward and getPopPayout equal an independently "
+            "written by-regime specification (flat round, below/above slope start, threshold cap, keystone round, "
+            "minimum difficulty, score from relative VBK publication height, difficulty averaged over the preceding "
+            "blocks, endorsed block = delay-1 behind the tip, empty when the chain is too short); "
+            "C14_same_payout_info_summed: a payout info's entry is the sum of its shares, no entry without a counted "
+            "endorsement; C14_payout_order_independent: the payout map does not depend on the endorsement order; "
+            "C14_sum_le_block_reward: total paid <= block reward <= capped reward (the true inequality: shares are "
+            "rounded down, the total can be smaller); C14_block_reward_le_cap; C14_default_params_ok (library "
+            "defaults, regenerated from the source, satisfy the bounds). For EVERY wrap function and parameter set: "
+            "C14_only_best_chain_endorsements, C14_no_endorsement_no_pay. No theorem is _partial or _refuted. The "
+            "model is executable and compared with the real calculator (pure helpers on random well-formed and "
+            "degenerate parameter sets incl. the wrap regime; getPopPayout/calculatePayouts/Inner/score/difficulty on "
+            "real ALT/VBK trees built with MockMiner incl. VBK forks, ALT reorgs, duplicate payout infos); wherever "
+            "the side conditions hold the extracted specification is evaluated too, so a disagreement is a concrete "
+            "failing input; the harness also evaluates the direct oracle (payees = endorsers on the best chain, "
+            "total <= block reward) on the implementation.",
     "note": "Trusted: Coq kernel, extraction (ExtrOcamlBasic), OCaml driver, C++ harness and its tree->abstract-view "
-            "mapping, tools/gen_rewardparams.py (regex over the headers, fails closed; cross-checked against the "
-            "library's own defaults via the `pardefault` op). ArithUint256 is modelled as Z mod 2^256 (byte-level "
-            "model is C18's). double->fixed conversion is not modelled in Coq (binary64), it is mirrored in Python and "
-            "compared with the C++ on every run. Modelled not verified: MockMiner, tree code maintaining "
-            "endorsedBy (C01/C04).",
+            "mapping (reads getEndorsedBy/getBestChain itself), tools/gen_rewardparams.py (regex over the headers, fails "
+            "closed on an unknown member/operator shape; cross-checked against the library's own defaults by the "
+            "`pardefault` op). ArithUint256 is modelled as Z mod 2^256 (the byte-level model is C18's). The "
+            "double->fixed conversion (uint64_t)(d*1e8) is binary64 arithmetic, not modelled in Coq: mirrored in "
+            "Python, compared with the C++ on every run (observation: it truncates, so table entries 23 and 36 are "
+            "6766427 and 3267968, one unit below the decimal literals). Not modelled: getATV failure path, "
+            "logging, the VBK_ASSERT preconditions of getPopPayout about the tree state. Mutating `>` to `>=` at the "
+            "slope start is behaviour-preserving for well-formed parameters (penalty 0 at the boundary) and is only "
+            "visible for thresholds below the slope start (abort). Modelled not verified: MockMiner, tree code "
+            "maintaining endorsedBy (C01/C04). thorough tier does not run coqchk.",
     "technique": "Coq proof (refinement calculator-model = specification over Z, induction over endorsement lists) + "
                  "extraction-based differential correspondence + direct oracle on the implementation",
 }
@@ -421,7 +435,10 @@ def load_corpus(pure, tree):
 
 
 def run(ctx):
+    import time
+    t0 = time.time()
     ctx.prove()
+    timing = {"prove_s": round(time.time() - t0, 1)}
     okm, model, mlog = vlib.build_model("Rewards")
     okh, hs, hlog = vlib.build_harness(["h_rewards"])
     if not okm:
@@ -431,6 +448,8 @@ def run(ctx):
     if not (okm and okh):
         return
     H = hs["h_rewards"]
+    timing["build_s"] = round(time.time() - t0 - timing["prove_s"], 1)
+    ctx.cov["timing"] = timing
     scale = 1 if ctx.tier == "quick" else 12
     pure = Cases("p")
     tree = Cases("t")
@@ -453,7 +472,9 @@ def run(ctx):
     for cs, runner, tag in ((pure, run_pure, "pure"), (tree, run_tree, "tree")):
         if not cs.lines:
             continue
+        t1 = time.time()
         mres, ires, orc, err, skipped, extra = runner(model, H, cs.lines, ctx.work, tag)
+        timing[tag + "_run_s"] = round(time.time() - t1, 1)
         if err:
             ctx.broken.append("runner(%s): %s" % (tag, err))
         if tag == "tree":
